@@ -127,6 +127,9 @@ func main() {
 			err = stream.StaleContextAfterReconnect(d, res, *seed)
 		}
 		if err == nil {
+			err = stream.SilentLossNoPings(res, *seed)
+		}
+		if err == nil {
 			err = corr.SubRegVsSweep(d, res, *seed, "loss")
 		}
 	case "C09":
@@ -161,6 +164,9 @@ func main() {
 		}
 		if err == nil {
 			err = corr.AfterExit(d, res, *seed)
+		}
+		if err == nil {
+			err = corr.SilentStall(d, res, *seed)
 		}
 		if err == nil {
 			err = corr.StaleDelete(d, res, *seed)
